@@ -120,7 +120,8 @@ def fixGo : List Fix → Bool → Nat → List Str → List Str
       match f.kind with
       | .ppline => strip l :: fixGo fs true (n + 1) ls
       | .continuation =>
-        fixTabs l (if firstCont then leadingTabs l else 0) :: fixGo fs false (n + 1) ls
+        -- only the first continuation line of a macro has a prescribed indent; later ones are copied
+        (if firstCont then fixTabs l (leadingTabs l) else l) :: fixGo fs false (n + 1) ls
     else l :: fixGo (f :: fs) firstCont (n + 1) ls
 
 def fixLines (fixes : List Fix) (lines : List Str) : List Str := fixGo fixes false 1 lines
@@ -192,13 +193,13 @@ def tmpOf (p : Str) : Str := p ++ ".tmp".toList
 inductive Outcome
   | untouched        -- no fixes recorded, or the option is off: nothing is written
   | rewritten        -- tmp written, original removed, tmp moved over it
-  | writeFailed      -- `outf.write` raised on the first line: tmp left behind, original intact
+  | writeFailed      -- `outf.write` raised on the first line (any I/O or type error): tmp left behind, original intact
   | parseFailed      -- unknown directive (`RuntimeError`) or no such file
   deriving DecidableEq, Repr
 
-/-- `HeaderParser(...)` with `fix_indents_in_files`.  `writeOk = false` models a handle/argument
-    type mismatch in `outf.write(...)` (the pinned code passes `bytes` to a text-mode handle, which
-    raises `TypeError` on the first write). -/
+/-- `HeaderParser(...)` with `fix_indents_in_files`.  `writeOk = false` models a write that raises
+    (the snapshot passed `bytes` to the text-mode handle: `TypeError` on the first write; repaired in
+    /repo 773ae3f7f); with `writeOk = true` this is the protocol as it runs now. -/
 def runFix (known : List Str) (writeOk : Bool) (fs : FS) (path : Str) : FS × Outcome :=
   match fs.get path with
   | none => (fs, .parseFailed)
